@@ -31,6 +31,8 @@ const (
 
 type Thread struct {
 	ID      int
+	count   uint64 // scheduling points passed
+	rhash   uint64 // hash of everything the thread observed at its points
 	state   threadState
 	pending Op
 	blockOn any
@@ -47,6 +49,9 @@ type Point struct {
 	Running int   // thread that ran before this point (-1 at start)
 	// RunningEnabled: the previously running thread is still enabled (choosing another one is a preemption)
 	RunningEnabled bool
+	// Key identifies the global state at this point: per thread its progress and everything it
+	// observed, per object its version and write history. Equal keys have equal futures.
+	Key uint64
 }
 
 type Race struct {
@@ -74,6 +79,56 @@ type Sched struct {
 	sharedPre map[uintptr]string
 	MaxPoints int
 	Overflow  bool
+	objVer    map[string]uint64
+	objHash   map[string]uint64
+}
+
+func mix(h uint64, xs ...uint64) uint64 {
+	for _, x := range xs {
+		h ^= x + 0x9e3779b97f4a7c15 + (h << 6) + (h >> 2)
+		h *= 0xff51afd7ed558ccd
+		h ^= h >> 33
+	}
+	return h
+}
+
+func strHash(s string) uint64 {
+	h := uint64(14695981039346656037)
+	for i := 0; i < len(s); i++ {
+		h ^= uint64(s[i])
+		h *= 1099511628211
+	}
+	return h
+}
+
+// stateKey combines (commutatively) the per-thread and per-object hashes.
+func (s *Sched) stateKey() uint64 {
+	var k uint64
+	for _, t := range s.threads {
+		k += mix(uint64(t.ID)+1, t.count, t.rhash, uint64(t.state), strHash(t.pending.Obj), b2u(t.pending.Write))
+	}
+	for o, v := range s.objVer {
+		k += mix(strHash(o), v, s.objHash[o])
+	}
+	return k
+}
+
+func b2u(b bool) uint64 {
+	if b {
+		return 1
+	}
+	return 0
+}
+
+// perform updates the hashes for the operation the chosen thread is about to execute.
+func (s *Sched) perform(t *Thread) {
+	op := t.pending
+	t.count++
+	if op.Write {
+		s.objVer[op.Obj]++
+		s.objHash[op.Obj] = mix(s.objHash[op.Obj], uint64(t.ID)+1, t.rhash, t.count)
+	}
+	t.rhash = mix(t.rhash, strHash(op.Obj), s.objVer[op.Obj], s.objHash[op.Obj], b2u(op.Write))
 }
 
 var cur *Sched
@@ -333,7 +388,7 @@ type Execution struct {
 // labelled up front. everWritten is the set of object labels written in earlier executions.
 func Run(bodies []func(), prefix []int, shared map[string]any, everWritten map[string]bool, maxPoints int) (*Execution, error) {
 	s := &Sched{parked: make(chan *Thread), prefix: prefix, Written: map[string]bool{}, everWritten: everWritten,
-		touched: map[string]int{}, sharedPre: map[uintptr]string{}, MaxPoints: maxPoints}
+		touched: map[string]int{}, sharedPre: map[uintptr]string{}, MaxPoints: maxPoints, objVer: map[string]uint64{}, objHash: map[string]uint64{}}
 	for name, m := range shared {
 		v := reflect.ValueOf(m)
 		if v.Kind() == reflect.Map && !v.IsNil() {
@@ -402,7 +457,7 @@ func Run(bodies []func(), prefix []int, shared map[string]any, everWritten map[s
 				choice = 0
 			}
 		}
-		pt := Point{Chosen: choice, Running: prev, RunningEnabled: runningEnabled}
+		pt := Point{Chosen: choice, Running: prev, RunningEnabled: runningEnabled, Key: s.stateKey()}
 		for _, t := range enabled {
 			pt.Enabled = append(pt.Enabled, t.ID)
 			pt.Ops = append(pt.Ops, t.pending)
@@ -421,6 +476,7 @@ func Run(bodies []func(), prefix []int, shared map[string]any, everWritten map[s
 			s.Overflow = true
 		}
 		t := enabled[choice]
+		s.perform(t)
 		s.running = t
 		prev = t.ID
 		t.resume <- struct{}{}
